@@ -229,6 +229,67 @@ theorem notify_records_all (s : St) (l : Loc) (h : Inv s.client) (t : TowerId) (
   · exact Or.inl (k3.recd (k2.inv h1) t l hr)
   · exact Or.inr (k3.flagd (k2.inv h1) t hp)
 
+/-- the same when one tower is down as the notification arrives and comes back holding requests -/
+theorem holdAfter_records_all (s : St) (t0 : TowerId) (l : Loc) (h : Inv s.client) (t : TowerId) (ht : t < s.n)
+    (hk : (s.client.towers t).isSome = true) :
+    recorded (s.holdAfter t0 l).client.store t l ∨ ((s.holdAfter t0 l).client.store.proofs t).isSome = true := by
+  obtain ⟨pre, post, hsplit⟩ := List.append_of_mem (List.mem_range.mpr ht)
+  unfold St.holdAfter
+  simp only
+  rw [hsplit, List.foldl_append, List.foldl_cons]
+  generalize hd : ({ s with beh := fun x => if x = t0 then { s.beh t0 with down := true, hold := true } else s.beh x } : St) = down
+  have hdc : down.client = s.client := by rw [← hd]
+  have k1 : Keeps down.client (pre.foldl (holdTurn t0 l) down).client :=
+    keeps_foldl (holdTurn t0 l) (fun a x => keeps_holdTurn t0 l a x) _ down
+  generalize pre.foldl (holdTurn t0 l) down = s1 at k1
+  have h1 : Inv s1.client := k1.inv (by rw [hdc]; exact h)
+  have hk1 : (s1.client.towers t).isSome = true := k1.known (by rw [hdc]; exact h) t (by rw [hdc]; exact hk)
+  obtain ⟨sm1, hs1⟩ := Option.isSome_iff_exists.mp hk1
+  have hturn : recorded (holdTurn t0 l s1 t).client.store t l ∨
+      ((holdTurn t0 l s1 t).client.store.proofs t).isSome = true := by
+    unfold holdTurn
+    split
+    · rename_i e
+      subst e
+      have hh := hook_records s1 t l h1 sm1 hs1
+      have kh := keeps_hookTower s1 t l
+      generalize hookTower s1 t l = r at hh kh
+      obtain ⟨s2, start⟩ := r
+      simp only at hh kh ⊢
+      split
+      · have kr : Keeps s2.client
+            (({ s2 with beh := fun y => if y = t then { s2.beh t with down := false } else s2.beh y } : St).retry t
+              (({ s2 with beh := fun y => if y = t then { s2.beh t with down := false } else s2.beh y } : St).pendingOf t)).client := by
+          refine keeps_retry' s2 _ ?_ t _
+          rfl
+        rcases hh with hh | hh
+        · exact Or.inl (kr.recd (kh.inv h1) t l hh)
+        · exact Or.inr (kr.flagd (kh.inv h1) t hh)
+      · exact hh
+    · -- an ordinary turn: as in `notify_records_all`
+      have hh := hook_records s1 t l h1 sm1 hs1
+      have kh := keeps_hookTower s1 t l
+      unfold notifyTower
+      split
+      · rename_i s2 heq
+        rw [heq] at hh kh
+        split
+        · exact hh
+        · have kr := keeps_retry (s2.consumeIf (asked s1 t l) t) t (s2.pendingOf t)
+          rw [consumeIf_client] at kr
+          rcases hh with hh | hh
+          · exact Or.inl (kr.recd (kh.inv h1) t l hh)
+          · exact Or.inr (kr.flagd (kh.inv h1) t hh)
+      · rename_i s2 heq
+        rw [heq] at hh
+        rw [consumeIf_client]
+        exact hh
+  have k2 : Keeps s1.client (holdTurn t0 l s1 t).client := keeps_holdTurn t0 l s1 t
+  have k3 := keeps_foldl (holdTurn t0 l) (fun a x => keeps_holdTurn t0 l a x) post (holdTurn t0 l s1 t)
+  rcases hturn with hr | hp
+  · exact Or.inl (k3.recd (k2.inv h1) t l hr)
+  · exact Or.inr (k3.flagd (k2.inv h1) t hp)
+
 /-! ### every history -/
 
 /-- the appointments the client owes each tower: a notification adds one per listed tower, an
@@ -236,6 +297,7 @@ abandon drops the tower's -/
 def dueAfter (s : St) (ev : Ev) (due : List (TowerId × Loc)) : List (TowerId × Loc) :=
   match ev with
   | .notify l => due ++ ((List.range s.n).filter (fun t => (s.client.towers t).isSome)).map (·, l)
+  | .holdAfter _ l => due ++ ((List.range s.n).filter (fun t => (s.client.towers t).isSome)).map (·, l)
   | .abandon t => due.filter (fun d => d.1 ≠ t)
   | _ => due
 
@@ -268,6 +330,8 @@ theorem all_due_recorded : ∀ (evs : List Ev) (s : St) (due : List (TowerId × 
       | setBeh t b => exact (keeps_step s (.setBeh t b) (by intro _ e; cases e)).inv h
       | retry t => exact (keeps_step s (.retry t) (by intro _ e; cases e)).inv h
       | restart => exact (keeps_step s .restart (by intro _ e; cases e)).inv h
+      | release t m => exact (keeps_step s (.release t m) (by intro _ e; cases e)).inv h
+      | holdAfter t l => exact (keeps_step s (.holdAfter t l) (by intro _ e; cases e)).inv h
     · intro d hdm
       cases ev with
       | notify l =>
@@ -313,6 +377,19 @@ theorem all_due_recorded : ∀ (evs : List Ev) (s : St) (due : List (TowerId × 
         rcases hd d hdm with hr | hp
         · exact Or.inl (k.recd h _ _ hr)
         · exact Or.inr (k.flagd h _ hp)
+      | release t m =>
+        have k := keeps_step s (.release t m) (by intro _ e; cases e)
+        rcases hd d hdm with hr | hp
+        · exact Or.inl (k.recd h _ _ hr)
+        · exact Or.inr (k.flagd h _ hp)
+      | holdAfter t0 l =>
+        simp only [dueAfter, List.mem_append, List.mem_map, List.mem_filter, List.mem_range] at hdm
+        have k := keeps_step s (.holdAfter t0 l) (by intro _ e; cases e)
+        rcases hdm with hdm | ⟨t, ⟨ht, hkn⟩, rfl⟩
+        · rcases hd d hdm with hr | hp
+          · exact Or.inl (k.recd h _ _ hr)
+          · exact Or.inr (k.flagd h _ hp)
+        · exact holdAfter_records_all s t0 l h t ht hkn
 
 /-- from an empty data directory -/
 theorem all_due_recorded_from_start (evs : List Ev) :
